@@ -4,7 +4,7 @@
     Generated/ParserTables.v (token numbers, prefix table, QToProto / newMatchTree case lists from the source).
     The external engines (RegexpQuery's regexp/syntax, grafana regexp.Compile, language lookup,
     Regexp.setCase(auto)) are universally quantified. *)
-From ZV Require Import Lib.Base Model.Query Generated.ParserTables Model.Parser Proofs.ParserTotal Proofs.ParserKinds Proofs.ParserFuel Model.JsonApi Proofs.JsonApiTotal.
+From ZV Require Import Lib.Base Model.Query Generated.ParserTables Model.Parser Proofs.ParserTotal Proofs.ParserKinds Proofs.ParserFuel Model.JsonApi Proofs.JsonApiTotal Proofs.C07Main.
 From Coq Require Import String.
 Open Scope N_scope.
 
@@ -14,10 +14,7 @@ Theorem C07_parse_never_panics :
   forall (rq : str -> rqres) (rx_auto rcompile : str -> bool) (lang : str -> option str) (s : str),
     (exists q, parse rq rx_auto rcompile lang s = Ok q) \/
     (exists e, parse rq rx_auto rcompile lang s = Err e /\ e <> E_FUEL).
-Proof.
-  intros. pose proof (parse_fine rq rx_auto rcompile lang s) as H.
-  destruct (parse rq rx_auto rcompile lang s) as [q|e|w]; simpl in H; [left; eauto | right; eauto | contradiction].
-Qed.
+Proof. exact parse_never_panics. Qed.
 Print Assumptions C07_parse_never_panics.
 
 (** termination: the recursion parseExpr / parseExprList / its loop needs at most 3*|s|+3 nested calls;
@@ -30,7 +27,7 @@ Theorem C07_parse_terminates_within_fuel :
     | Err e => e <> E_FUEL
     | Panic _ => False
     end.
-Proof. intros. apply parse_with_fine. exact H. Qed.
+Proof. exact parse_terminates_within_fuel. Qed.
 Print Assumptions C07_parse_terminates_within_fuel.
 
 (** ... and the answer does not depend on the fuel: every fuel >= 3*|s|+3 gives exactly Parse's result
@@ -39,7 +36,7 @@ Theorem C07_parse_fuel_independent :
   forall (rq : str -> rqres) (rx_auto rcompile : str -> bool) (lang : str -> option str) (s : str) (fuel : nat),
     (3 * List.length s + 3 <= fuel)%nat ->
     parse_with rq rx_auto rcompile lang fuel s = parse rq rx_auto rcompile lang s.
-Proof. intros. apply parse_fuel_independent. exact H. Qed.
+Proof. exact parse_fuel_independent'. Qed.
 Print Assumptions C07_parse_fuel_independent.
 
 (** every query that parsing yields is converted by QToProto without reaching its
@@ -72,12 +69,7 @@ Theorem C07_json_api_never_panics_partial :
     forall (is_post : bool) (sbody : option search_args) (lbody : option list_args),
       nopanic (json_search (parse rq rx_auto rcompile lang) search is_post sbody) /\
       nopanic (json_list (parse rq rx_auto rcompile lang) listq is_post lbody).
-Proof.
-  intros rq rx_auto rcompile lang search listq Hs Hl is_post sbody lbody.
-  assert (Hp : forall s, nopanic (parse rq rx_auto rcompile lang s)).
-  { intros s. pose proof (parse_fine rq rx_auto rcompile lang s) as H. destruct (parse rq rx_auto rcompile lang s); simpl in *; auto. }
-  split; [apply json_search_nopanic | apply json_list_nopanic]; assumption.
-Qed.
+Proof. exact json_api_never_panics. Qed.
 Print Assumptions C07_json_api_never_panics_partial.
 
 (** setType ranges over Go maps in random order; at most one entry of [prefixes] can apply, so the
